@@ -50,7 +50,7 @@ REAL_VS_STUB = {
     'real': ['optree engine serialization + registry re-binding', 'CPython pickle / copy', 'a real second interpreter process for restart histories'],
     'stub_or_simulator_owned': ['registration log and its drift', 'custom flatten/unflatten callables', 'GC timing', 'which history happens between dump and load'],
 }
-EXPECTED_PROBES = ('history:same-process', 'history:gc-between', 'history:drift-unregister', 'history:drift-reregister-same',
+EXPECTED_PROBES = ('derived:child', 'derived:compose', 'derived:ctor', 'history:same-process', 'history:gc-between', 'history:drift-unregister', 'history:drift-reregister-same',
                    'history:drift-global-only', 'history:restart-same', 'history:restart-missing', 'history:restart-other-ns',
                    'load:refused', 'load:ok', 'mentions-custom', 'mode:insertion', 'proto:2', 'proto:3', 'proto:4', 'proto:5')
 
@@ -135,6 +135,25 @@ def run_job(job, io):
         with mode_cm(mode_ns):
             leaves, spec = optree.tree_flatten(tree, none_is_leaf=nil, namespace=ns)
             eff_insertion = optree._C.is_dict_insertion_ordered(ns)
+        # sometimes pickle a treespec DERIVED from the flattened one (sub-spec, composition, constructor): those have no
+        # "fresh flatten" to compare with, only the original
+        derived = None
+        dv = tape.draw(8, 'derive')
+        if dv == 1 and spec.num_children:
+            ci = tape.draw(spec.num_children, 'derive-child')
+            spec, derived = spec.child(ci), 'child'
+        elif dv == 2 and spec.num_children:
+            spec, derived = spec.children()[tape.draw(spec.num_children, 'derive-child')], 'children'
+        elif dv == 3:
+            spec, derived = spec.compose(optree.tree_structure({'q': 0, 'p': (0, None)}, none_is_leaf=nil, namespace=ns)), 'compose'
+        elif dv == 4:
+            spec, derived = optree.treespec_tuple([spec, optree.treespec_leaf(none_is_leaf=nil)], none_is_leaf=nil, namespace=ns), 'ctor'
+        elif dv == 5:
+            spec, derived = (spec.one_level() or spec), 'one_level'
+        if derived:
+            probes['derived:' + derived] += 1
+            leaves = [U.Leaf(70000 + j) for j in range(spec.num_leaves)]
+            tree = spec.unflatten(leaves)
         if eff_insertion:
             probes['mode:insertion'] += 1
         probes['proto:%d' % proto] += 1
@@ -167,7 +186,7 @@ def run_job(job, io):
         obs = observe(spec)
         regmap_dump = {k: f.rid for k, f in live.items()}
         bindings = {type(x).__name__: binding(regmap_dump, type(x).__name__, ns) for x in walk(tree) if isinstance(x, U.Node)}
-        items.append({'bindings': bindings, 'id': ti, 'tree': tree, 'leaves': leaves, 'spec': spec, 'obs': obs, 'data': data, 'nil': nil, 'ns': ns, 'mode_ns': mode_ns,
+        items.append({'derived': derived, 'bindings': bindings, 'id': ti, 'tree': tree, 'leaves': leaves, 'spec': spec, 'obs': obs, 'data': data, 'nil': nil, 'ns': ns, 'mode_ns': mode_ns,
                       'load_mode_ns': load_mode_ns, 'proto': proto, 'mentions': mentions, 'tree_seed': tree_seed, 'budget': budget,
                       'kinds': list(ctx.kinds), 'key_styles': list(ctx.key_styles), 'custom': [c.__name__ for c in ctx.custom_classes],
                       'eff_insertion': eff_insertion, 'desc': gen.describe(tree)[:160]})
@@ -253,7 +272,7 @@ def run_job(job, io):
                 probes['load:ok'] += 1
                 keys.add(key_for(it, 'ok'))
                 fresh = None
-                if status == 'same':
+                if status == 'same' and not it['derived']:
                     with mode_cm(it['mode_ns']):
                         fresh = optree.tree_structure(it['tree'], none_is_leaf=it['nil'], namespace=it['ns'])
                 # a re-bound registration is a new registration object but must still be the SAME registration content:
@@ -298,7 +317,7 @@ def run_job(job, io):
         live2 = {(c, n): r for c, n, _, r in log2}
         blob_items = []
         for it in items:
-            blob_items.append({k: it[k] for k in ('id', 'data', 'nil', 'ns', 'mode_ns', 'load_mode_ns', 'proto', 'tree_seed', 'budget', 'kinds',
+            blob_items.append({k: it[k] for k in ('derived', 'id', 'data', 'nil', 'ns', 'mode_ns', 'load_mode_ns', 'proto', 'tree_seed', 'budget', 'kinds',
                                                   'key_styles', 'custom')})
             blob_items[-1]['gc'] = bool(tape.draw(2, 'loader-gc'))
         rundir = os.path.join(B.CACHE, 'run-%d' % os.getpid())
@@ -338,7 +357,7 @@ def run_job(job, io):
                     d = diff({k: v for k, v in it['obs'].items()}, res['obs'])
                     if d:
                         viol('field-differs', site, 'treespec loaded in a fresh interpreter differs from the original: %s' % d)
-                    if status != 'same':
+                    if status != 'same' or it['derived']:
                         pass
                     elif not res['eq_fresh'] or not res['hash_eq_fresh']:
                         viol('not-equal-fresh', site, 'treespec loaded in a fresh interpreter != treespec flattened afresh there (eq=%s, hash=%s): %s' % (
